@@ -134,7 +134,7 @@ def run(rep):
             progs.append(sx); origin.append("corpus")
     feats = collections.Counter()
     for k in range(n_prog):
-        g = gen_core.Gen(rng_for(seed, "c01-prog", k))
+        g = gen_core.Gen(rng_for(seed, "c01-prog", k), gen_core.Opts(extras=(k % 2 == 1)))
         progs.append(g.program()); origin.append("program")
         feats.update(g.feats)
     for k in range(n_ctx):
